@@ -140,3 +140,9 @@ def _is_empty(ex, a):
 @prim(_is_empty)
 def is_empty_list(a):
     return isinstance(a, list) and len(a) == 0
+
+
+@prim(lambda ex, a: VBool(z3.ToReal(z3.ToInt(_real(ex, a))) == _real(ex, a)))
+def is_integral(a):
+    """The (finite) number has an integer value."""
+    return _frac(a).denominator == 1
